@@ -19,12 +19,13 @@ EXTENDS Naturals, Sequences, FiniteSets, TLC, Json
 CONSTANTS Variant
 
 VARIABLES fmt,     \* "lz" | "lzma"
+          flags,   \* [concat, ignoreCheck : BOOLEAN]  (LZMA_CONCATENATED, LZMA_IGNORE_CHECK of lzma_lzip_decoder / lzma_auto_decoder)
           file,    \* damaged abstract file
           orig,    \* the file before the damage
           fault,   \* [kind, m (member), f (field), cls]
           limit,   \* truncation: [m, f, w]  or  [m |-> 0]
           seq, mi, first, ret, out, frame
-vars == <<fmt, file, orig, fault, limit, seq, mi, first, ret, out, frame>>
+vars == <<fmt, flags, file, orig, fault, limit, seq, mi, first, ret, out, frame>>
 
 (* ---------------------------------------------------------------- .lz ---- *)
 Mem(id, ver) == [magic |-> TRUE, ver |-> ver, dict |-> "ok", pl |-> "ok", crc |-> TRUE, usz |-> TRUE, msz |-> TRUE, id |-> id]
@@ -56,6 +57,7 @@ AlEffects(A, f) ==
 
 NoLimit == [m |-> 0, f |-> "", w |-> ""]
 Init ==
+    /\ flags \in [concat : BOOLEAN, ignoreCheck : BOOLEAN]
     /\ seq = "start" /\ mi = 1 /\ first = TRUE /\ ret = "run" /\ out = <<>> /\ frame = FALSE
     /\ \/ /\ fmt = "lz"
           /\ \E base \in LzBases :
@@ -86,14 +88,15 @@ Init ==
                   \/ \E k \in 1..4 : \E w \in {"before", "inside"} :
                         /\ fault = [kind |-> "trunc", m |-> 1, f |-> AlFields[k], cls |-> w] /\ file = base
                         /\ limit = [m |-> 1, f |-> AlFields[k], w |-> w]
+    /\ (fmt = "lzma" => flags = [concat |-> TRUE, ignoreCheck |-> FALSE])        \* the flags mean nothing to a .lzma file
 
 (* does the file end before the decoder can read field f of member m completely? *)
 Order(f) == CASE f \in {"z.magic", "a.props"} -> 1 [] f \in {"z.version", "a.dict"} -> 2 [] f \in {"z.dict", "a.usize"} -> 3
               [] f \in {"z.payload", "a.payload"} -> 4 [] f = "z.crc32" -> 5 [] f = "z.usize" -> 6 [] OTHER -> 7
 Cut(m, f) == limit.m # 0 /\ (limit.m < m \/ (limit.m = m /\ Order(limit.f) <= Order(f)))
 CutBefore(m, f) == limit.m # 0 /\ (limit.m < m \/ (limit.m = m /\ (Order(limit.f) < Order(f) \/ (limit.f = f /\ limit.w = "before"))))
-Stop(r) == ret' = r /\ UNCHANGED <<fmt, file, orig, fault, limit, seq, mi, first, out, frame>>
-Goto(s) == seq' = s /\ UNCHANGED <<fmt, file, orig, fault, limit, mi, first, ret, out, frame>>
+Stop(r) == ret' = r /\ UNCHANGED <<fmt, flags, file, orig, fault, limit, seq, mi, first, out, frame>>
+Goto(s) == seq' = s /\ UNCHANGED <<fmt, flags, file, orig, fault, limit, mi, first, ret, out, frame>>
 M == file[mi]
 
 (* ---- lzip_decode() ---- *)
@@ -124,24 +127,25 @@ LzLzmaStream ==
               [] M.pl = "frame" -> \* the marker is not where the footer begins: error, starvation, or a footer read from the wrong bytes
                                    \/ Stop("DATA_ERROR") \/ Stop("BUF_ERROR")
                                    \/ /\ seq' = "MEMBER_FOOTER" /\ frame' = TRUE /\ out' = Append(out, 0)
-                                      /\ UNCHANGED <<fmt, file, orig, fault, limit, mi, first, ret>>
+                                      /\ UNCHANGED <<fmt, flags, file, orig, fault, limit, mi, first, ret>>
               [] M.dict = "smaller" /\ M.pl = "ok" ->        \* a distance may now be out of the window
                                    \/ Stop("DATA_ERROR")
-                                   \/ /\ seq' = "MEMBER_FOOTER" /\ out' = Append(out, M.id) /\ UNCHANGED <<fmt, file, orig, fault, limit, mi, first, ret, frame>>
+                                   \/ /\ seq' = "MEMBER_FOOTER" /\ out' = Append(out, M.id) /\ UNCHANGED <<fmt, flags, file, orig, fault, limit, mi, first, ret, frame>>
               [] OTHER -> /\ seq' = "MEMBER_FOOTER" /\ out' = Append(out, IF M.pl = "ok" THEN M.id ELSE 0)
-                          /\ UNCHANGED <<fmt, file, orig, fault, limit, mi, first, ret, frame>>
+                          /\ UNCHANGED <<fmt, flags, file, orig, fault, limit, mi, first, ret, frame>>
 LzMemberFooter ==
     /\ fmt = "lz" /\ ret = "run" /\ seq = "MEMBER_FOOTER"
     /\ LET last == IF M.ver = 0 THEN "z.usize" ELSE "z.msize" IN
        IF Cut(mi, last) \/ (fault.cls = "v0_to_v1" /\ mi = fault.m /\ mi = Len(file)) THEN Stop("BUF_ERROR")
        ELSE IF frame THEN Stop("DATA_ERROR")                             \* CrcDetects: four arbitrary bytes are not the CRC32 of the data
-       ELSE IF ~M.crc /\ Variant # "no_crc" THEN Stop("DATA_ERROR")
+       ELSE IF ~M.crc /\ ~flags.ignoreCheck /\ Variant # "no_crc" /\ ~(Variant = "crc_after_single_end" /\ ~flags.concat) THEN Stop("DATA_ERROR")
        ELSE IF ~M.usz /\ Variant # "no_usize" THEN Stop("DATA_ERROR")
        ELSE IF M.ver = 1 /\ ~M.msz /\ Variant # "no_member_size" THEN Stop("DATA_ERROR")
+       ELSE IF ~flags.concat THEN Stop("STREAM_END")                        \* "if (!coder->concatenated) return LZMA_STREAM_END;"
        ELSE /\ mi' = mi + 1 /\ first' = FALSE /\ seq' = "ID_STRING"
             \* version 1 read as version 0: eight footer bytes are left over and are not magic bytes; v0 read as v1 swallowed 8 bytes of the next member
             /\ frame' = (fault.kind = "flip" /\ fault.f = "z.version" /\ fault.m = mi)
-            /\ UNCHANGED <<fmt, file, orig, fault, limit, ret, out>>
+            /\ UNCHANGED <<fmt, flags, file, orig, fault, limit, ret, out>>
 
 (* ---- alone_decode() ---- *)
 Alone ==
@@ -149,13 +153,13 @@ Alone ==
     /\ IF CutBefore(1, "a.payload") THEN Stop("BUF_ERROR")                      \* 13 header bytes
        ELSE IF file.props = "invalid" THEN Stop("FORMAT_ERROR")                 \* lzma_lzma_lclppb_decode()
        ELSE IF file.dict = "other" THEN \/ Stop("MEMLIMIT_ERROR") \/ Stop("DATA_ERROR") \/ Stop("FORMAT_ERROR")     \* FORMAT_ERROR: picky (auto decoder)
-                                        \/ (limit.m = 0 /\ out' = <<1>> /\ ret' = "STREAM_END" /\ UNCHANGED <<fmt, file, orig, fault, limit, seq, mi, first, frame>>)
+                                        \/ (limit.m = 0 /\ out' = <<1>> /\ ret' = "STREAM_END" /\ UNCHANGED <<fmt, flags, file, orig, fault, limit, seq, mi, first, frame>>)
        ELSE IF file.usize = "other" THEN \/ Stop("DATA_ERROR") \/ Stop("BUF_ERROR") \/ Stop("FORMAT_ERROR")
-                                         \/ (out' = <<0>> /\ ret' = "STREAM_END" /\ UNCHANGED <<fmt, file, orig, fault, limit, seq, mi, first, frame>>)
+                                         \/ (out' = <<0>> /\ ret' = "STREAM_END" /\ UNCHANGED <<fmt, flags, file, orig, fault, limit, seq, mi, first, frame>>)
        ELSE IF limit.m # 0 THEN Stop("BUF_ERROR")                                \* the payload is cut: the range decoder starves
        ELSE IF file.pl = "garbage" THEN \/ Stop("DATA_ERROR") \/ Stop("BUF_ERROR")
-                                        \/ (out' = <<0>> /\ ret' = "STREAM_END" /\ UNCHANGED <<fmt, file, orig, fault, limit, seq, mi, first, frame>>)
-       ELSE out' = <<1>> /\ ret' = "STREAM_END" /\ UNCHANGED <<fmt, file, orig, fault, limit, seq, mi, first, frame>>
+                                        \/ (out' = <<0>> /\ ret' = "STREAM_END" /\ UNCHANGED <<fmt, flags, file, orig, fault, limit, seq, mi, first, frame>>)
+       ELSE out' = <<1>> /\ ret' = "STREAM_END" /\ UNCHANGED <<fmt, flags, file, orig, fault, limit, seq, mi, first, frame>>
 
 Next == LzIdString \/ LzVersion \/ LzDictSize \/ LzLzmaStream \/ LzMemberFooter \/ Alone
 Spec == Init /\ [][Next]_vars
@@ -164,17 +168,23 @@ Spec == Init /\ [][Next]_vars
 Done == ret # "run"
 Success == ret = "STREAM_END"
 IsPrefix(a, b) == Len(a) <= Len(b) /\ \A k \in 1..Len(a) : a[k] = b[k]
-OrigIds == IF fmt = "lz" THEN [k \in 1..Len(orig) |-> orig[k].id] ELSE <<1>>
+AllIds == IF fmt = "lz" THEN [k \in 1..Len(orig) |-> orig[k].id] ELSE <<1>>
+(* what a decoder with these flags is asked to deliver: every member, or only the first *)
+OrigIds == IF fmt = "lz" /\ ~flags.concat THEN <<AllIds[1]>> ELSE AllIds
+Seen(m) == flags.concat \/ m <= 1                                  \* is member m looked at at all
 (* .lz carries a CRC32: never success with data that is not the original - except whole members lost as "trailing data" *)
 LooseTrailing == fmt = "lz" /\ Success /\ IsPrefix(out, OrigIds) /\ Len(out) >= 1 /\ Len(out) < Len(OrigIds)
-LzNeverWrongSuccess == (Done /\ fmt = "lz" /\ fault.kind # "none" /\ Success) => (out = OrigIds \/ LooseTrailing)
+(* LZMA_IGNORE_CHECK renounces the CRC32 (sizes are still compared) *)
+LzNeverWrongSuccess == (Done /\ fmt = "lz" /\ fault.kind # "none" /\ Success /\ ~flags.ignoreCheck) => (out = OrigIds \/ LooseTrailing)
 (* the footer fields are always verified *)
-LzFooterDamageDetected == (Done /\ fmt = "lz" /\ fault.kind = "flip" /\ fault.f \in {"z.crc32", "z.usize", "z.msize"}) => ~Success
+LzFooterDamageDetected == (Done /\ fmt = "lz" /\ fault.kind = "flip" /\ Seen(fault.m)
+                             /\ (fault.f \in {"z.usize", "z.msize"} \/ (fault.f = "z.crc32" /\ ~flags.ignoreCheck))) => ~Success
 (* a file that ends inside a member is never complete, except inside the magic bytes of a later member (trailing data rule) *)
 TruncatedNeverComplete ==
     (Done /\ fault.kind = "trunc") =>
-        IF fmt = "lz" /\ fault.f = "z.magic" /\ fault.m > 1 THEN (Success /\ IsPrefix(out, OrigIds))
+        IF fmt = "lz" /\ ~Seen(fault.m) THEN (Success /\ out = OrigIds)       \* single-member decoding never reaches the cut
+        ELSE IF fmt = "lz" /\ fault.f = "z.magic" /\ fault.m > 1 THEN (Success /\ IsPrefix(out, OrigIds))
         ELSE ret = "BUF_ERROR"
 NoFaultNoError == (Done /\ fault.kind = "none") => (Success /\ out = OrigIds)
-Emit == (ret' # "run") => PrintT(<<"PLAN", ToJson([fmt |-> fmt, base |-> orig, fault |-> fault, ret |-> ret', same |-> (out' = OrigIds)])>>)
+Emit == (ret' # "run") => PrintT(<<"PLAN", ToJson([fmt |-> fmt, flags |-> flags, base |-> orig, fault |-> fault, ret |-> ret', same |-> (out' = OrigIds)])>>)
 =============================================================================
